@@ -158,6 +158,24 @@ def transplant(E, ghosts, C):
                     pos[d] = j2
         pos[len(E)] = len(C)
         ratio = matched / max(1, len(E))
+        # consistent renaming of a local identifier in the real code (`result` -> `sum_and_carry` at every aligned
+        # position): the ghost text follows the rename.  Only identifiers, only when the old name no longer occurs in
+        # the fresh code and the new name did not occur in the old code (otherwise nothing is renamed).
+        ren = {}
+        bad = set()
+        for tag, i1, i2, j1, j2 in sm.get_opcodes():
+            if tag == 'replace' and i2 - i1 == j2 - j1:
+                for d in range(i2 - i1):
+                    a, b = E[i1 + d], C[j1 + d]
+                    if re.fullmatch(r'[A-Za-z_]\w*', a) and re.fullmatch(r'[A-Za-z_]\w*', b) and a != b:
+                        if ren.get(a, b) != b:
+                            bad.add(a)
+                        ren[a] = b
+        cset, eset = set(C), set(E)
+        ren = {a: b for a, b in ren.items() if a not in bad and a not in cset and b not in eset
+               and a not in ('self', 'Self', 'fn', 'let', 'mut', 'if', 'else', 'while', 'loop', 'for', 'in', 'return', 'match', 'const', 'pub', 'unsafe', 'as')}
+        if ren:
+            ghosts = [(k, [ren.get(t, t) for t in g]) for k, g in ghosts]
     by = {}
     for k, g in ghosts:
         j = k if pos is None else pos[k]
